@@ -31,5 +31,9 @@ def run(ctx):
     # ---------------------------------------------------------------- C06.ARGS
     from ..rules_common import check_call_arguments
     check_call_arguments(ctx, "C06.ARGS", "C06")
+    from ..rules_common import check_effect_tables
+    check_effect_tables(ctx, "C06")
+    from ..rules_common import check_presence_tests, ARG_SCOPE
+    check_presence_tests(ctx, "C06.PRESENCE", classes=ARG_SCOPE.get("C06", []))
 
 
